@@ -116,5 +116,23 @@ v("C19", "sort-error-dropped", "builtins.go", "\t\t\trets, err := g.Func(args[1]
 v("C20", "pos-first-component", "compiler.go", "out = append(out, instruction{Pos: in[n+1].Pos, Code: codeFastCall,", "out = append(out, instruction{Pos: in[n].Pos, Code: codeFastCall,", "POS-FUSED:FastCall")
 v("C20", "early-return", "compiler.go", '\tcase "break":\n\t\tres = append(res, instruction{Code: codeBreak})', '\tcase "break":\n\t\treturn []instruction{{Code: codeBreak}}', "POS-STAMP:no-early-return")
 v("C20", "backtrace-ascending", "vm.go", "\tfor n := len(bt) - 1; n >= 0; n-- {", "\tfor n := 0; n < len(bt); n++ {", "BT-ORDER:innermost-first")
+
+# variants added for rules that came out of the seeded changes
+v("C02", "case-expr-unmeasured", "compiler.go", "csStmt := c.optimize(c.compile(cs.Tokens[caseStmt]))", "csStmt := c.compile(cs.Tokens[caseStmt])", "PEEP-MEASURED:switch spanned caseExpr")
+v("C03", "pos-unmasked", "compiler.go", "pos(line&0xffff)<<16", "pos(line)<<16", "PAN-HANDLER:pos.info")
+v("C07", "decl-not-resized", "symbol.go", "\t\tright := p.Expression(0)\n\t\tdecl.Append(right)\n\t\tassignResize(left, right)\n\t\treturn decl\n\t}\n\tright := symAtPos", "\t\tright := p.Expression(0)\n\t\tdecl.Append(right)\n\t\treturn decl\n\t}\n\tright := symAtPos", "PAR-RESIZE:getDecl")
+v("C07", "return-patch-unguarded", "compiler.go", "if last := &returns[len(returns)-1]; last.Code == codeCall || last.Code == codeCallVariadic {\n\t\t\t\tlast.B = reg(c.Returns[len(c.Returns)-1])\n\t\t\t}", "returns[len(returns)-1].B = reg(c.Returns[len(c.Returns)-1])", "INS-PATCH:compiler.compile")
+v("C07", "case-list-one-clause", "symbol.go", "\t\t\tfor _, e := range exprs.Tokens {\n\t\t\t\tcc := symAtPos(c.Pos, \"case\")\n\t\t\t\tcc.Append(e)\n\t\t\t\tcc.Append(body)\n\t\t\t\tcases.Append(cc)\n\t\t\t}", "\t\t\tc.Append(exprs)\n\t\t\tc.Append(body)\n\t\t\tcases.Append(c)", "PAR-RESIZE:case slot")
+v("C08", "scope-closed-late", "compiler.go", "\t\tc.End()\n\t\tc.Locals = tmp", "\t\tc.Locals = tmp\n\t\tc.End()", "SCO-SWAP:scope")
+v("C10", "keys-compacted-in-place", "value.go", "keys := make([]string, 0, len(m.data)+1)", "keys := m.keys[:0]", "REP-MAPKEYS:stringMap.Set keys-not-rewritten")
+v("C10", "literal-duplicates", "value.go", "\t\tk, v := in[i].num, in[i+1]\n\t\tif _, ok := m.data[k]; !ok {\n\t\t\tm.keys = append(m.keys, k)\n\t\t}", "\t\tk, v := in[i].num, in[i+1]\n\t\tm.keys = append(m.keys, k)", "REP-MAPKEYS:newNumericMap literal-dedupe")
+v("C11", "variadic-raw-slice", "vm.go", "v.stack = append(v.stack, NewSlice(ft.VariadicType.value(), varArgs))", "v.stack = append(v.stack, newSlice(ft.VariadicType.value(), varArgs))", "REP-RAWSLICE:newSlice in call")
+v("C13", "char-via-unquote", "token.go", "\tvalue, _, _, err := strconv.UnquoteChar(t.Text[1:len(t.Text)-1], '\\'')\n\tif err != nil {\n\t\tpanicf(\"error parsing char: %v\", err)\n\t}\n\treturn value", "\ts, err := strconv.Unquote(t.Text)\n\tif err != nil {\n\t\tpanicf(\"error parsing char: %v\", err)\n\t}\n\treturn []rune(s)[0]", "LIT-DELEGATE:token.Char")
+v("C15", "scan-stops-early", "load.go", "\t\t\tif t.Symbol != \"import\" {\n\t\t\t\tcontinue\n\t\t\t}", "\t\t\tif t.Symbol != \"import\" {\n\t\t\t\tbreak\n\t\t\t}", "LOAD-KAHN:K0")
+v("C15", "constraint-not-trimmed", "load.go", 'line := strings.Split(strings.TrimSpace(s), "\\n")[0]', 'line := strings.Split(s, "\\n")[0]', "LOAD-FILTER:constraint line")
+v("C16", "imports-not-sorted", "load.go", "\t\t\tp = treeSort(p)\n\t\t}\n\t\tpackages[pkg] = p", "\t\t}\n\t\tpackages[pkg] = p", "LOAD-SORT:loadImports")
+v("C19", "nested-stack-aliased", "vm.go", "\t\tstack:   append(params, fnc),", "\t\tstack:   append(append(v.stack[len(v.stack):], params...), fnc),", "FUNC-ISOLATED:VM.Func")
+v("C20", "lambda-funcname-reset", "compiler.go", "\t\tres = append(res, c.compile(tok.Tokens[0])...)\n\t\tc.FuncName = tmp", "\t\tres = append(res, c.compile(tok.Tokens[0])...)\n\t\tc.FuncName = \"\"\n\t\t_ = tmp", "SCO-SWAP:lambda FuncName")
+
 json.dump(V, open('/verif/selftest/variants.json', 'w'), indent=1)
 print(len(V), "variants")
